@@ -1,6 +1,7 @@
 """C09 — normalization picks composed/decomposed forms per font support (and the normalizer part of C08)."""
 import os, struct, sys, unicodedata
 import vlib
+import _lattice as L
 
 sys.path.insert(0, os.path.join(os.path.dirname(os.path.dirname(os.path.abspath(__file__))), "gens"))
 
@@ -1514,6 +1515,24 @@ def replay_known(ctx, shim):
                          "compose_hangul with T_BASE) replayed on the crate")
 
 
+LATTICE_RULE = ("font support lattice (tools/props/_lattice.py): every character with a canonical decomposition (key families — "
+                "the scripts with a dedicated shaper, singletons such as U+2000 / U+2126 / U+0340 / U+0374, spaces, multi-level "
+                "marks — exhaustively, the Latin / Greek / CJK bulk sampled in quick), sample Hangul syllables x cmap-only fonts "
+                "for every subset of {c, the halves and inner pieces of its decomposition, U+0020 when a space is involved, "
+                "U+25CC when c is a mark} x one script per shaper (default first; arabic, hebrew, thai, hangul, indic, khmer, "
+                "myanmar, use; dispatch read from the compiled crate) and the script of c's block x {c, c + mark, base + c, base "
+                "+ c + mark}; kept: some character of the text is NOT mapped but every one is mapped or has its full canonical "
+                "decomposition mapped (characters on which the shaper's own decompose callback differs from "
+                "unicode::decompose, probed on the crate, are left out under that shaper); oracles: per cluster the characters "
+                "recovered from the glyphs are canonically equivalent to the input (no .notdef, no fallback glyph); c alone under "
+                "the default shaper with no intermediate mapped: exactly the glyphs of NFD(c); equivalent-twin: wherever the "
+                "normalizer must decompose c all the way (the font maps NFD(c) and c is in a multi-character cluster under a "
+                "mode other than NONE, or neither c nor an intermediate is mapped) the text with NFD(c) in place of c (same "
+                "cluster values) must give the identical result — glyphs, clusters, positions — under every shaper "
+                "(characters whose decomposition is not in the order of the crate's MODIFIED combining classes are left "
+                "out: a text of simple clusters skips the reorder round, e.g. U+FB2C)")
+
+
 def run(ctx):
     ctx.assumptions += [
         "the theorems are about the Lean model of ot_shape_normalize.rs / unicode.rs (Norm.lean); the model is tied to "
@@ -1541,6 +1560,15 @@ def run(ctx):
     # a model / crate disagreement is promoted into a property-level input: the disagreeing requests themselves are
     # shaped through the public API and judged by model-free oracles
     promote_run_disagreements(ctx, shim, U, dis, ctx.budget(60, 400))
+    # ... and under one script per shaper, judged by the lattice oracles; then the font support lattice itself: every
+    # decomposable character x every subset of the glyphs its normalization can depend on, on fonts that LACK a character
+    # of the text but map its full canonical decomposition
+    env = L.Env(shim)
+    L.promote_norm_run(ctx, shim, env, dis, ctx.budget(40, 300), [L.judge_conservation_p], "norm-run")
+    L.search(ctx, shim, env, ctx.rng("lattice"), ("decomposable",),
+             lambda c, S, text, tag: (not all(x in S for x in text) and all(L.renderable(x, S) for x in text))
+             or L.decomposed_twin(env, c, S, text, tag) is not None,
+             [L.judge_conservation], LATTICE_RULE, twin=L.decomposed_twin)
     search_singles(ctx, shim, U, RD, ctx.budget(2, 1))
     search_strings(ctx, shim, U, RD, RC, ctx.rng("strings"), ctx.budget(100, 10 ** 6), ctx.budget(1, 2),
                    ctx.budget(40, 120))
@@ -1550,6 +1578,10 @@ def run(ctx):
 
 def replay(ctx, rp):
     shim = vlib.build_harness()
+    if rp.get("stream") == L.STREAM:
+        return L.replay(shim, rp, [L.judge_conservation])
+    if rp.get("stream") == L.PROMOTED:
+        return L.replay_promoted(shim, rp, [L.judge_conservation_p])
     if rp.get("stream") in ("reorder", "reorder-leading", "promoted-norm-run") and "request2" in rp:
         o = vlib.run_groups(shim, [[rp["font_line"], rp["request"], rp["request2"]]], nproc=1)[0]
         print("order 1:", o[1]); print("order 2:", o[2])
